@@ -225,6 +225,7 @@ type workerResult struct {
 	crashed bool
 	partial *Report // the violations a crashed worker had recorded
 	log     string
+	sig     string // crash signature, taken from the whole log
 	infl    string
 }
 
@@ -274,7 +275,10 @@ func runWorkers(bin string, ck *Check, tier, replay, dir string, n int, deadline
 				err = fmt.Errorf("watchdog: worker killed after deadline+10min")
 				<-done
 			}
-			r := workerResult{log: headTail(buf.String(), 3000)}
+			r := workerResult{log: headTail(buf.String(), 3000), sig: crashSig(buf.String())}
+			if os.Getenv("VERIF_FULL_LOG") != "" {
+				r.log = buf.String()
+			}
 			if b, e := os.ReadFile(infl); e == nil {
 				r.infl = string(b)
 			}
@@ -405,6 +409,9 @@ func runCheck(id, tier, replay string) int {
 		instr = rep
 		ck2 := *ck
 		ck2.Func = p.part.Func
+		if p.part.OneProc && ck2.GoMaxProcs == 0 {
+			ck2.GoMaxProcs = 1
+		}
 		tag := fmt.Sprintf("%s%d", p.tag, pi)
 		if p.race {
 			tag = "race"
@@ -420,10 +427,15 @@ func runCheck(id, tier, replay string) int {
 				merged.Exhaustive = false
 			}
 			if r.crashed {
+				// the whole log of a worker that died, for whoever has to find out why
+				os.WriteFile(filepath.Join(verifRoot, "out", fmt.Sprintf("crash-%s-%s-%d.log", id, p.part.Func, i)), []byte(r.log), 0o644)
+				if r.sig == "" {
+					r.sig = crashSig(r.log)
+				}
 				if ck.CrashIsViolation && r.infl != "" {
 					var cas interface{}
 					json.Unmarshal([]byte(r.infl), &cas)
-					merged.addViolation(Violation{Key: id + "/worker-crash/" + crashSig(r.log), Detail: "worker process died while executing the case: " + tail(r.log, 800), Case: cas})
+					merged.addViolation(Violation{Key: id + "/worker-crash/" + r.sig, Detail: "worker process died while executing the case: " + headTail(r.log, 800), Case: cas})
 					merged.Exhaustive = false
 				} else {
 					merged.Notes = append(merged.Notes, fmt.Sprintf("worker %d (%s %s) died without a report; its shard is not covered: %s", i, p.part.Func, p.tag, tail(r.log, 1500)))
